@@ -73,13 +73,30 @@ V28 == Val("int", 1, AIs(LStr("None.")), TRUE)          \* (1, {"a": "None."})
 \* sub-contexts on which the predicate "needx" answers (True, False) instead of raising
 V29 == Val("int", 1, ABIs(Dict(One("x", LInt(2, "2")))), TRUE)   \* (1, {"a": {"b": {"x": 2}}})
 V30 == Val("int", 0, AIs(Dict(One("x", LInt(1, "1")))), TRUE)    \* (0, {"a": {"x": 1}})
+\* the shape of the value (RawVal in SelectorsSem.tla): bare data that looks like a (data, context) pair
+\* but is not one - two items, the second a number / a string / a list / None -, tuples of one and of
+\* three items (a dictionary in second place), a list of two items, and real pairs: a pair whose data is
+\* itself a 2-tuple, a pair whose data is a list
+ACtx == AIs(Empty)
+V31 == RawVal("tuple", <<D("int", 1), D("int", 2)>>)              \* (1, 2)
+V32 == RawVal("tuple", <<D("str", 1), D("str", 1)>>)              \* ("s", "s")
+V33 == RawVal("tuple", <<D("int", 1), D("list", 1)>>)             \* (1, [0])
+V34 == RawVal("tuple", <<D("str", 1), D("none", 0)>>)             \* ("s", None)
+V35 == RawVal("tuple", <<D("int", 1)>>)                           \* (1,)
+V36 == RawVal("tuple", <<D("int", 1), ACtx, D("int", 2)>>)        \* (1, {"a": {}}, 2)
+V37 == RawVal("list", <<D("int", 1), D("int", 2)>>)               \* [1, 2]
+V38 == RawVal("tuple", <<D("tuple", 2), ACtx>>)                   \* ((0, 0), {"a": {}})
+V39 == RawVal("tuple", <<D("list", 2), ACtx>>)                    \* ([0, 0], {"a": {}})
+V40 == RawVal("tuple", <<D("tuple", 2), D("int", 0)>>)            \* ((0, 0), 0)
+V41 == RawVal("tuple", <<D("bool", 1), D("tuple", 0)>>)           \* (True, ())
+V42 == RawVal("tuple", <<D("int", 1), ACtx>>)                     \* (1, {"a": {}}) - the same rule gives a pair
 AllVals == <<V1, V2, V3, V4, V5, V6, V7, V8, V9, V10, V11, V12, V13, V14, V15, V16, V17, V18, V19, V20, V21, V22, V23, V24,
-             V25, V26, V27, V28, V29, V30>>
+             V25, V26, V27, V28, V29, V30, V31, V32, V33, V34, V35, V36, V37, V38, V39, V40, V41, V42>>
 
 \* constant leaves: every outcome combination of the items of a container
 AbsLeaves == {Fn("yes"), Fn("no"), Fn("boom")}
 AN == <<"a", "None">>
-ConcLeaves == {Str(A1), Str(ABX), Str(AN), Cls("int"), Cls("str"), Cls("ucls"), Fn("pos"), Fn("objpos"), Fn("len"), Fn("boom"), Fn("isnone")}
+ConcLeaves == {Str(A1), Str(ABX), Str(AN), Cls("int"), Cls("str"), Cls("ucls"), Cls("tuple"), Fn("pos"), Fn("objpos"), Fn("len"), Fn("boom"), Fn("isnone")}
 SCs == {SC(p, q, r) : p \in {<<>>, A1, AB}, r \in BOOLEAN,
                       q \in {"isdict", "eq1", "gt0", "hasx", "isnone", "eq0", "truthy", "always",
                              "cbool", "cstr", "cint", "cdict", "cuser"}}
